@@ -325,3 +325,39 @@ pub fn run(args: &Args) -> bool {
     ctx.finish();
     ok
 }
+
+/// `c06-dump`: items of the same grammar as source text, for the step that expands the real proc macros under rustc
+/// (lib/c06_rustc.py). Item k goes under derive k % 6; items on which that derive already panics at library level
+/// (the known ident_case finding) are left out and counted. Prints one JSON document on stdout.
+pub fn dump(args: &Args) -> bool {
+    use proptest::strategy::{Strategy, ValueTree};
+    use proptest::test_runner::{Config, RngAlgorithm, TestRng, TestRunner};
+    let seed = vmodel::ev::mix_seed(args.seed, "C06", "rustc", args.shard);
+    let mut runner = TestRunner::new_with_rng(Config::default(), TestRng::from_seed(RngAlgorithm::ChaCha, &vmodel::ev::seed_bytes(seed)));
+    let strat = prop::collection::vec(any::<u8>(), 0..400);
+    let mut items = vec![];
+    let mut skipped = 0usize;
+    let mut tries = 0u64;
+    while (items.len() as u64) < args.cases && tries < args.cases * 20 {
+        tries += 1;
+        let bytes = match strat.new_tree(&mut runner) {
+            Ok(t) => t.current(),
+            Err(_) => break,
+        };
+        fresh_spans();
+        let mut d = D::new(&bytes);
+        let (src, st) = digen::derive_input(&mut d);
+        let di: syn::DeriveInput = match syn::parse_str(&src) {
+            Ok(x) => x,
+            Err(_) => continue,
+        };
+        let tr = TRAITS[items.len() % 6];
+        if catch(|| derive(tr, &di)).is_err() {
+            skipped += 1;
+            continue;
+        }
+        items.push(json!({"src": src, "nontrivial": st.malformed_body || st.non_named_shape || st.invalid_options >= 2}));
+    }
+    println!("{}", json!({"items": items, "skipped_known": skipped}));
+    true
+}
